@@ -1395,6 +1395,8 @@ struct Rt<'c> {
     first_image_seen: bool,
     /// the sink failed inside a stream session: the size bookkeeping may be off
     shadow_unreliable: bool,
+    /// a stream session has run: the Writer's own frame control may have been replaced by the session's copy (the shadow does not follow that)
+    stream_session_seen: bool,
 }
 
 impl<'c> Rt<'c> {
@@ -1532,6 +1534,16 @@ impl<'c> Rt<'c> {
                         SetOp::Dispose(d) => sw.set_dispose_op(dispose_of(*d)),
                     })
                     .map(|x| enc_res(&x));
+                    if let Ok(sres) = r.as_deref() {
+                        // same documented rule for the stream writer's own copy of the frame control
+                        if !self.shadow_unreliable && matches!(o, SetOp::Dim(..) | SetOp::Pos(..)) && ss.sfc.is_some() && matches!(sres, "ok" | "err:outOfBounds" | "err:zeroWidth" | "err:zeroHeight") {
+                            let want = rect_set_ok(&ss.sfc, self.sh.cw, self.sh.ch, o);
+                            if want != (sres == "ok") {
+                                self.obs.api_faults.push((format!("setter/stream-rect-{}", if want { "refused-inside-canvas" } else { "accepted-outside-canvas" }),
+                                    format!("StreamWriter::{} with the frame control {:?} on a {}x{} canvas answered `{}`", o.to_str(), ss.sfc, self.sh.cw, self.sh.ch, sres)));
+                            }
+                        }
+                    }
                     if r.as_deref() == Ok("ok") {
                         rect_apply(&mut ss.sfc, self.sh.cw, self.sh.ch, o);
                     }
@@ -1600,7 +1612,7 @@ impl<'c> Rt<'c> {
 pub fn exec(case: &Case) -> Observed {
     use png::text_metadata::{ITXtChunk, TEXtChunk, ZTXtChunk};
     let sink = SharedSink::new(&case.sink);
-    let mut rt = Rt { case, sink: sink.clone(), obs: Observed::default(), sh: Shadow::new(&case.cfg), first_image_seen: false, shadow_unreliable: false };
+    let mut rt = Rt { case, sink: sink.clone(), obs: Observed::default(), sh: Shadow::new(&case.cfg), first_image_seen: false, shadow_unreliable: false, stream_session_seen: false };
     // header
     let before = sink.probe();
     let cfg = case.cfg.clone();
@@ -1648,6 +1660,7 @@ pub fn exec(case: &Case) -> Observed {
                     // (4096 is the documented default size: through the constructor without a size)
                     let new_res = guarded(move || if size == 4096 { wr.stream_writer() } else { wr.stream_writer_with_size(size) });
                     let (rs, p) = rt.drive(new_res, before, sess, i, false);
+                    rt.stream_session_seen = true;
                     results = rs;
                     panicked = p;
                 }
@@ -1706,6 +1719,17 @@ pub fn exec(case: &Case) -> Observed {
                     if s != "ok" && matches!(step, Step::Image(_)) && sink.len() - start >= 38 && rt.sh.fc.is_some() && !(rt.sh.sep && rt.sh.images_written == 0) {
                         // the fcTL went out before the failure: `animation_written` was incremented (:844)
                         rt.sh.anim_written += 1;
+                    }
+                    if let Step::Set(o) = step {
+                        // the documented rule for the two rectangle setters, evaluated on the shadow frame control (independent of the
+                        // model): inside the canvas and not empty <=> accepted
+                        if !rt.stream_session_seen && !rt.shadow_unreliable && matches!(o, SetOp::Dim(..) | SetOp::Pos(..)) && rt.sh.fc.is_some() && matches!(s.as_str(), "ok" | "err:outOfBounds" | "err:zeroWidth" | "err:zeroHeight") {
+                            let want = rect_set_ok(&rt.sh.fc, rt.sh.cw, rt.sh.ch, o);
+                            if want != (s == "ok") {
+                                rt.obs.api_faults.push((format!("setter/rect-{}", if want { "refused-inside-canvas" } else { "accepted-outside-canvas" }),
+                                    format!("Writer::{} with the frame control {:?} on a {}x{} canvas answered `{}`", o.to_str(), rt.sh.fc, rt.sh.cw, rt.sh.ch, s)));
+                            }
+                        }
                     }
                     if s == "ok" {
                         match step {
